@@ -129,6 +129,26 @@ func runC03(res *lib.Result, tier string, seed int64, args []string) error {
 			return err
 		}
 	}
+	// malformed numerals the lexer keeps as ONE token (Lua 5.4 §3.1 + LuaJIT's LL / ULL suffixes): each must be a
+	// syntax error wherever a numeral may stand (the token-level grammar oracle cannot judge the spelling of a numeral)
+	for k, m := range []string{"0x", "0x.", "0xl", "0xL", "0xu", "0xU", "0xull", "0xll", "3e", "3E", "0x1p", "1e+", "1e-", "0xp1", "0x.p1", "1..2", "0x1.p", "3ee1", "1e5ll", "0x.ull", "0xx1", "1.2.3", "0x1p+"} {
+		for _, tpl := range []string{"return %s", "local v = %s", "f(1, %s)", "t[%s] = 1"} {
+			src := []byte(fmt.Sprintf(tpl, m))
+			diff, unmod, nerr, err := compareParse(drv, src)
+			if err != nil {
+				return err
+			}
+			res.Count(string(src), true)
+			res.Dist("malformed-numeral")
+			caseText := fmt.Sprintf("malformed numeral %d %q", k, string(src))
+			if !unmod && diff != "" {
+				res.AddViolation("impl-vs-model", "parser: "+diff, caseText, nerr > 0)
+			}
+			if nerr == 0 {
+				res.AddViolation("impl-vs-spec", "a malformed numeral is reported clean", caseText, false)
+			}
+		}
+	}
 	for i := 0; i < nProg; i++ {
 		r := root.Fork(uint64(i))
 		g, toks := genProgram(r, 4)
